@@ -657,6 +657,10 @@ def configs(ctx):
     add("class CH TXT LRU no raise", rdclass="CH", rdtype="TXT", cache="lru", servers=1, raise_on_no_answer=False,
         alphabet=["answer", "nodata", "nxdomain", "timeout"])
     add("short timeout", timeout=0.4, lifetime=1.0, servers=1, alphabet=["answer", "timeout", "formerr"])
+    add("3 servers short alphabet", servers=3, lifetime=2.0, alphabet=["answer", "servfail", "formerr", "truncated", "timeout"])
+    add("2 candidates 2 servers retry_servfail", qname="www", search=["a."], search_arg=True, retry_servfail=True, lifetime=1.0,
+        alphabet=["answer", "nxdomain", "servfail", "eof", "timeout"])
+    add("async-relevant: tcp + always_max server1", tcp=False, always_max=1, lifetime=2.0, alphabet=["answer", "truncated", "servfail", "timeout", "oserror"])
     if not ctx.quick:
         add("3 servers", servers=3, lifetime=2.0,
             alphabet=["answer", "nxdomain", "servfail", "refused", "formerr", "truncated", "timeout"])
@@ -664,6 +668,11 @@ def configs(ctx):
             alphabet=["answer", "servfail", "timeout", "formerr"])
         add("3 candidates 2 servers", qname="www", search=["a.", "b."], search_arg=True, lifetime=2.0,
             alphabet=["answer", "nxdomain", "servfail", "formerr", "timeout"])
+        add("3 servers full alphabet lifetime 2", servers=3, lifetime=2.0, alphabet=FULL)
+        add("2 servers full alphabet retry_servfail lifetime 1.5", retry_servfail=True, lifetime=1.5, alphabet=FULL)
+        add("3 candidates 2 servers cache LRU", qname="www", search=["a.", "b."], search_arg=True, lifetime=2.0, cache="lru",
+            alphabet=["answer", "nodata", "nxdomain", "servfail", "truncated", "timeout", "dangling-nx"])
+        add("4 servers", servers=4, lifetime=1.5, alphabet=["answer", "servfail", "formerr", "truncated", "timeout"])
     return out
 
 
